@@ -5,8 +5,8 @@ NOTES = ("Contract-based deductive verification of the real AOtools source. Exit
 BASE = "A-ENGINE (the VC generator aovc is trusted code), A-PY (Python semantics as encoded), A-REAL (floats as reals), A-INT, A-NP (NumPy/SciPy contracts of aovc/npmodel.py); "
 CLAIMED = {
  "C14": {
-  "text": "Unbounded proof, for all sizes, radii >= 0, centres and both origins, that the real circle() body returns exactly the indicator array of the statement (shape, values in {0,1}, <= comparison at half-integer pixel centres), plus the nesting / symmetry / integer-translation lemmas proved over that contract. Sub-aperture clauses: see level_note.",
-  "note": BASE + "area -> pi r^2 is not decided (asymptotic).",
+  "text": "Unbounded proof, for all sizes, radii >= 0, centres and both origins, that the real circle() body returns exactly the indicator array of the statement (shape, values in {0,1}, <= comparison at half-integer pixel centres), plus the nesting / symmetry / integer-translation lemmas proved over that contract. Sub-aperture clauses (loop summaries, unbounded in mask size and sub-aperture count): findActiveSubaps is the row-major filtered enumeration of exactly the cells (x, y) whose mean over mask[rnd(x s):rnd((x+1) s), rnd(y s):rnd((y+1) s)] is >= threshold, with coordinates (x s_x, y s_y) and fills equal to those means under the same condition (hence monotone in the threshold); computeFillFactor[i] is the mean over mask[rnd(x):rnd(x+sp), rnd(y):rnd(y+sp)]; make_subaps_2d puts data[..., rank(x,y)] at the cells with mask==1 (rank = running row-major count of such cells) and 0 elsewhere.",
+  "note": BASE + "area -> pi r^2 is not decided (asymptotic). Non-empty in-bounds cells are a precondition of the mean clauses; float rounding of x*spacing is treated over the reals (A-REAL), bridged by the bounded native family (native/C14.py).",
   "technique": "symbolic execution of the real function body + SMT (z3/cvc5) discharge of postcondition, definedness and frame obligations; counter-models replayed natively",
  },
 }
